@@ -66,6 +66,15 @@ def replay_state(st):
             w2 = float(dreye.compute_mean_width(P.copy(), n=60000, seed=5, vectorized=True))
             if w2 != wbig:
                 bad.append(("C18.width-deterministic", where0, wbig, w2))
+            # the `center` flag only says whether the data are centred first: the width itself is translation invariant,
+            # so both settings, loop and vectorised, must agree for the same seed (also away from the origin)
+            Pt = P + 25.0 + np.arange(d) * 15.0
+            ref = float(dreye.compute_mean_width(Pt.copy(), n=500, seed=5, vectorized=False, center=False))
+            for vec in (False, True):
+                for cen in (False, True):
+                    wv = float(dreye.compute_mean_width(Pt.copy(), n=500, seed=5, vectorized=vec, center=cen))
+                    if abs(wv - ref) > 1e-9 * (1 + ref):
+                        bad.append(("C18.width-translation", dict(vectorized=vec, center=cen, **where0), ref, wv))
             wloop = float(dreye.compute_mean_width(P.copy(), n=500, seed=5, vectorized=False))
             wvec = float(dreye.compute_mean_width(P.copy(), n=500, seed=5, vectorized=True))
             if abs(wloop - wvec) > 1e-9 * (1 + wvec):
@@ -120,11 +129,18 @@ def gamut_and_jsd(seed):
         from .. import dsys
         for A in ([[2, 1], [1, 3]], [[3, 1, 0], [0, 1, 2]], [[3, 1, 0], [1, 2, 1], [0, 1, 3]]):
             sysd = dict(A=A, D=4, lb=[0] * len(A[0]), ub=[4] * len(A[0]), kk="none", Kn=np.eye(len(A)).astype(int).tolist(), DK=1, bk="none", bl=[0] * len(A))
-            est = dsys.make_estimator(dreye, sysd)
-            for metric in ("width", "volume"):
-                g = est.compute_gamut(relative=False, metric=metric, seed=2)
-                if not (0 < g <= 1 + 1e-9):
-                    bad.append(("C18.estimator-gamut-range", dict(metric=metric, nrec=len(A)), "(0,1]", float(g)))
+            for kk, Kn, DK, bk, bl in (("none", np.eye(len(A)).astype(int).tolist(), 1, "none", [0] * len(A)),
+                                       ("vector", np.diag(range(1, len(A) + 1)).tolist(), 2, "vector", list(range(1, len(A) + 1)))):
+                sysd = dict(A=A, D=4, lb=[0] * len(A[0]), ub=[4] * len(A[0]), kk=kk, Kn=Kn, DK=DK, bk=bk, bl=bl)
+                est = dsys.make_estimator(dreye, sysd)
+                for metric in ("width", "volume"):
+                    g0 = est.compute_gamut(relative=False, metric=metric, seed=2)
+                    est.compute_gamut(metric=metric, seed=2)            # a relative query in between
+                    g = est.compute_gamut(relative=False, metric=metric, seed=2)
+                    if not (0 < g <= 1 + 1e-9) or not (0 < g0 <= 1 + 1e-9):
+                        bad.append(("C18.estimator-gamut-range", dict(metric=metric, nrec=len(A), kk=kk), "(0,1]", [float(g0), float(g)]))
+                    if abs(g - g0) > 1e-12:
+                        bad.append(("C18.estimator-gamut-range", dict(metric=metric, nrec=len(A), kk=kk, kind="changed-by-a-query"), float(g0), float(g)))
     except Exception as ex:
         bad.append(("C18.no-error", dict(exc=type(ex).__name__, op="estimator.compute_gamut"), None, repr(ex)[:200]))
     # Jensen-Shannon
